@@ -98,7 +98,7 @@ LexFrom(s, i, acc) ==
   LET j == RunWs(s, i) IN
   IF j > Len(s) THEN [ok |-> TRUE, ts |-> acc]
   ELSE LET r == ScanToken(s, j) IN
-       IF ~r.ok THEN [ok |-> FALSE, ts |-> <<>>]
+       IF ~r.ok THEN [ok |-> FALSE, ts |-> acc]          \* the tokens before the failure
        ELSE LexFrom(s, r.j, Append(acc, Tok(r.k, SubSeq(s, j, r.j - 1), j > i)))
 
 Lex(s) == LexFrom(s, 1, <<>>)
